@@ -890,7 +890,7 @@ pub fn run(args: &Args) -> Option<i32> {
     mon.assume("for queries the model fixes only when the answer is `true`; `Ok(false)` and `Err` both count as `does not hold`");
     mon.assume("instruction-level `no side effects on failure` is given by transaction atomicity of the runtime; the byte comparison is meaningful for the direct SUT");
     let quiet = hostsvm::QuietStdout::new();
-    let shards = args.scale(512, 6144);
+    let shards = args.scale(512, 4096);
     let seed = args.seed;
     let thorough = args.is_thorough();
     run_shards(&mut mon, args.threads, shards, |shard, m| {
